@@ -65,7 +65,9 @@ fn main() {
     }
     let only = args.iter().position(|a| a == "--only").and_then(|i| args.get(i + 1).cloned());
     let mut ctx = Ctx { only, cases: 0, failing: 0, per_class: Default::default() };
-    panic::set_hook(Box::new(|_| {}));
+    if std::env::var("ORACLE_PANIC").is_err() {
+        panic::set_hook(Box::new(|_| {}));
+    }
     match args[1].as_str() {
         "C01" => ck::c01(&mut ctx),
         "C02" => ck::c02_c03_c11(&mut ctx, "c02"),
